@@ -620,3 +620,21 @@ def replay(ctx, path):
         if ln.startswith("ORACLE") or (ln.startswith("END") and not ln.startswith("END ok")):
             bad = 1
     return bad
+
+
+# ------------------------------------------------------------------------------ the running pipeline as part of another check
+def pipeline_part(ctx, classes, nscen, nsched, rel, what):
+    """run scenario classes of the whole runtime (detsched + mock driver, co-simulated with M1 where M1 covers the class) inside the
+    check of a property whose own model is a single component: the component's callers — acquire.c, source.c, sink.c — are where a
+    correct component is used wrongly.  `rel` selects the oracle messages that belong to the property."""
+    ex = Explorer(ctx)
+    if not ex.build():
+        return None
+    keep = dict(ctx.cov)
+    explore(ctx, ex, classes, nscen, nsched, rel)
+    ctx.cov.clear()
+    ctx.cov.update(keep)
+    ctx.cov["pipeline_runs"] = {"classes": classes, "runs": ex.stats["runs"], "per_class": ex.stats["per_class"], "oracle_kinds_hit": ex.stats["oracle_kinds"],
+                                "cosim_runs": ex.stats["cosim_runs"], "cosim_agree": ex.stats["cosim_ok"], "decisions_compared": ex.stats["decisions"],
+                                "what": what}
+    return ex
